@@ -21,23 +21,26 @@ open BtcVerif.Spec.Rpc (NumText)
 /-- Every JSON number text that denotes exactly `k` satoshis — in any form the grammar allows: fixed
     point with any number of (zero) extra decimals, exponent notation, a plain integer, either sign of
     zero — is converted to exactly `k`.  `|k| < 10^28` is the precision of the decimal context; the
-    money range ends at 2.1·10^15. -/
-theorem amount_in_exact (t : NumText) (hwf : t.WF) (k : Int) (hk : k.natAbs < 10 ^ 28) (h : t.denotes k) :
-    amountIn t.render = some (.ok k) := by
+    money range ends at 2.1·10^15.  `InLimits`: the numeral is within CPython's own size limits (integers
+    of at most 4300 digits, exponents within ±10^18); beyond them `json.loads` refuses the body. -/
+theorem amount_in_exact (t : NumText) (hwf : t.WF) (hlim : InLimits t) (k : Int) (hk : k.natAbs < 10 ^ 28)
+    (h : t.denotes k) : amountIn t.render = some (.ok k) := by
   unfold amountIn
   rw [scanNumber_render t hwf]
   show some (amountInNum t) = _
-  rw [amountInNum_exact t k hk h]
+  rw [amountInNum_exact t hlim k hk h]
 
-/-- for JSON integers (no fraction, no exponent) the conversion is exact without any bound -/
-theorem amount_in_exact_int (t : NumText) (hwf : t.WF) (hf : t.frac = none) (he : t.exp = none) :
+/-- for JSON integers (no fraction, no exponent) the conversion is exact for every value Python's `int()`
+    accepts (4300 digits) -/
+theorem amount_in_exact_int (t : NumText) (hwf : t.WF) (hf : t.frac = none) (he : t.exp = none)
+    (hlen : t.intDigits.length ≤ INT_MAX_STR_DIGITS) :
     amountIn t.render =
       some (.ok (applySign t.neg (Spec.Rpc.digitsVal t.intDigits * Spec.Rpc.COIN))) := by
   unfold amountIn
   rw [scanNumber_render t hwf]
   show some (amountInNum t) = _
   unfold amountInNum
-  rw [if_pos ⟨hf, he⟩]
+  rw [if_pos ⟨hf, he⟩, if_neg (by omega)]
 
 /-! ### hashes and hex transport -/
 
@@ -137,15 +140,18 @@ theorem non_reply_outcomes : callOutcome .nonUtf8 = .pyExc "UnicodeDecodeError" 
     callOutcome .nonJson = .raise Spec.Rpc.baseClass "-342" ∧
     callOutcome .noResponse = .raise Spec.Rpc.baseClass "-342" := by decide
 
-/-- every JSON number text standing for an amount is converted to an integer or refused with
-    decimal.Overflow — no other exception comes out of `int(Decimal(text) * COIN)` … -/
+/-- every JSON number text standing for an amount is converted to an integer, refused with
+    decimal.Overflow, or — numerals beyond CPython's size limits — rejected with the whole body as
+    JSONRPCError(-342); no other exception comes out of `int(Decimal(text) * COIN)` … -/
 theorem amount_in_outcomes (t : NumText) (hwf : t.WF) :
-    (∃ k, amountIn t.render = some (.ok k)) ∨ amountIn t.render = some (.error overflow) := by
+    (∃ k, amountIn t.render = some (.ok k)) ∨ amountIn t.render = some (.error overflow) ∨
+      amountIn t.render = some (.error .rpcerr) := by
   unfold amountIn
   rw [scanNumber_render t hwf]
-  rcases amountInNum_outcomes t with ⟨k, hk⟩ | hk
+  rcases amountInNum_outcomes t with ⟨k, hk⟩ | hk | hk
   · left; exact ⟨k, by show some (amountInNum t) = _; rw [hk]⟩
-  · right; show some (amountInNum t) = _; rw [hk]
+  · right; left; show some (amountInNum t) = _; rw [hk]
+  · right; right; show some (amountInNum t) = _; rw [hk]
 
 /-- … whereas the other JSON values that can stand in an amount's place raise CPython's own
     exceptions (observations, not part of the property: NaN → ValueError, ±Infinity → OverflowError,
@@ -199,7 +205,7 @@ theorem ids_gt_counter : ∀ (rs : List Req) (s : PState), ∀ n ∈ idsSent s r
   | r :: rs, s, n, h => by
     rw [idsSent_cons] at h
     cases r with
-    | call =>
+    | call f =>
       rcases List.mem_append.mp h with h1 | h1
       · have : n = s.idCount + 1 := by simpa [stepReq] using h1
         omega
@@ -211,14 +217,15 @@ theorem ids_gt_counter : ∀ (rs : List Req) (s : PState), ∀ n ∈ idsSent s r
       · simp [stepReq] at h1
       · exact ids_gt_counter rs _ n h1
 
-/-- over any history of requests on one proxy — calls whose replies are results, errors, garbage or
-    missing, with batches in between — the ids the proxy sends strictly increase -/
+/-- over any history of requests on one proxy, the ids the proxy sends strictly increase — whatever
+    becomes of each call (`Req.call` carries its fate: any reply, including none, garbage, non-UTF-8,
+    non-object, error or result, or a connection that raises), with batches in between -/
 theorem ids_strictly_increase : ∀ (rs : List Req) (s : PState), (idsSent s rs).Pairwise (· < ·)
   | [], _ => List.Pairwise.nil
   | r :: rs, s => by
     rw [idsSent_cons]
     cases r with
-    | call =>
+    | call f =>
       show List.Pairwise (· < ·) ([s.idCount + 1] ++ idsSent _ rs)
       rw [List.singleton_append, List.pairwise_cons]
       refine ⟨?_, ids_strictly_increase rs _⟩
@@ -230,14 +237,38 @@ theorem ids_strictly_increase : ∀ (rs : List Req) (s : PState), (idsSent s rs)
       rw [List.nil_append]
       exact ids_strictly_increase rs _
 
-/-- and a fresh proxy counts 1, 2, 3, … -/
-theorem ids_of_calls (n : Nat) (s : PState) :
-    idsSent s (List.replicate n .call) = (List.range' (s.idCount + 1) n) := by
-  induction n generalizing s with
-  | zero => rfl
-  | succ n ih =>
-    rw [List.replicate_succ, idsSent_cons]
-    show [s.idCount + 1] ++ idsSent { idCount := s.idCount + 1 } (List.replicate n .call) = _
+/-- the counter is independent of what happens to the calls: two histories that differ only in the
+    fates of their calls send the same ids -/
+theorem ids_independent_of_fate : ∀ (rs rs' : List Req) (s : PState),
+    List.Forall₂ (fun a b => (a = .batch ↔ b = .batch)) rs rs' → idsSent s rs = idsSent s rs'
+  | [], [], _, _ => rfl
+  | r :: rs, r' :: rs', s, h => by
+    cases h with
+    | cons h1 h2 =>
+      rw [idsSent_cons, idsSent_cons]
+      cases r with
+      | call f =>
+        cases r' with
+        | call f' =>
+          show [s.idCount + 1] ++ idsSent _ rs = [s.idCount + 1] ++ idsSent _ rs'
+          rw [ids_independent_of_fate rs rs' _ h2]
+          rfl
+        | batch => exact absurd (h1.mpr rfl) (by simp)
+      | batch =>
+        cases r' with
+        | call f' => exact absurd (h1.mp rfl) (by simp)
+        | batch =>
+          show [] ++ idsSent s rs = [] ++ idsSent s rs'
+          rw [ids_independent_of_fate rs rs' s h2]
+
+/-- and a fresh proxy counts 1, 2, 3, … whatever the fates -/
+theorem ids_of_calls (fs : List Fate) (s : PState) :
+    idsSent s (fs.map .call) = (List.range' (s.idCount + 1) fs.length) := by
+  induction fs generalizing s with
+  | nil => rfl
+  | cons f fs ih =>
+    rw [List.map_cons, idsSent_cons]
+    show [s.idCount + 1] ++ idsSent { idCount := s.idCount + 1 } (fs.map .call) = _
     rw [ih]
     rfl
 
@@ -277,7 +308,13 @@ example : amountIn "0.10000000".toList = some (.ok 10000000) := by
     refine ⟨by simp, by decide, Or.inl rfl, ?_, ?_⟩
     · intro f h; cases h; exact ⟨by simp, by decide⟩
     · intro m s ds h; cases h
-  exact amount_in_exact ⟨false, ['0'], some ['1', '0', '0', '0', '0', '0', '0', '0'], none⟩ hwf 10000000
+  have hlim : InLimits (⟨false, ['0'], some ['1', '0', '0', '0', '0', '0', '0', '0'], none⟩ : NumText) := by
+    refine ⟨by decide, by decide, ?_⟩
+    have h1 := ndigits_le_of_lt
+      (⟨false, ['0'], some ['1', '0', '0', '0', '0', '0', '0', '0'], none⟩ : NumText).coeff 28 (by decide) (by omega)
+    have h2 : (⟨false, ['0'], some ['1', '0', '0', '0', '0', '0', '0', '0'], none⟩ : NumText).expo = -8 := by decide
+    rw [h2]; unfold MAX_EMAX; omega
+  exact amount_in_exact ⟨false, ['0'], some ['1', '0', '0', '0', '0', '0', '0', '0'], none⟩ hwf hlim 10000000
     (by decide) ⟨by decide, by decide, by decide⟩
 /-- error replies meeting the hypothesis -/
 example : (ErrVal.dict (.int (-5))) ≠ .absent ∧ (ErrVal.dict (.int (-5))) ≠ .null := by decide
@@ -286,7 +323,9 @@ example : callOutcome (.obj (.dict (.dec true 50 (-1))) none) = .raise "InvalidA
 example : callOutcome (.obj .other (some "x")) = .raise "JSONRPCError" "-344" := by decide
 example : callOutcome (.obj (.dict .unhashable) (some "x")) = .raise "JSONRPCError" "unhashable" := by decide
 example : methodOutcome "getblock" (.obj (.dict (.int (-5))) none) = .pyExc "IndexError" := by decide
-example : idsSent PState.init [.call, .batch, .call, .call] = [1, 2, 3] := by decide
+example : idsSent PState.init [.call (.replied .nonUtf8), .batch, .call .connectionError,
+    .call (.replied (.obj .absent (some "1")))] = [1, 2, 3] := by decide
+example : methodOutcome "gettxout" (.obj .null (some "@null")) = .pyExc "IndexError" := by decide
 /-- the genesis block hash in Core's form -/
 example : b2lx [0x6f, 0xe2, 0x8c, 0x0a] = "0a8ce26f" := by decide
 
@@ -305,8 +344,11 @@ example : b2lx [0x6f, 0xe2, 0x8c, 0x0a] = "0a8ce26f" := by decide
 /-- PARTIAL (send side).  What is missing relative to the full statement above: `rn` ("the double
     nearest to") and the emitted numeral `m · 10^p` are not computed from a model of IEEE-754 and of
     `float.__repr__`; instead
-      * `hspacing` assumes the spacing of binary64 (two positive reals with the same nearest double
-        differ by at most 2^-52 of the larger one — round-to-nearest with a 53-bit significand),
+      * `hspacing` assumes the spacing of binary64 on the money range only: for `y ∈ [10^-8, 21·10^6]`
+        (normal doubles; no subnormals, no overflow) a positive real with the same nearest double as
+        `y` differs from it by at most 2^-52 of the larger one (round-to-nearest, 53-bit significand:
+        the rounding interval of a normal double `q` is at most `ulp(q) ≤ q·2^-52` wide, ≤ 2^-28 here) —
+        a statement IEEE-754 binary64 satisfies, unlike the unrestricted one,
       * `hrt` and `hshort` assume the contract of `float.__repr__`: the numeral parses back to the
         double that was formatted, and no numeral with fewer significant digits does.
     Under these, for every amount `0 < a ≤ 21·10^14` the numeral denotes exactly `a / 10^8`.
@@ -314,7 +356,8 @@ example : b2lx [0x6f, 0xe2, 0x8c, 0x0a] = "0a8ce26f" := by decide
     `float`/`repr` by re-parsing every request body with exact decimal arithmetic. -/
 theorem amount_out_exact_partial
     (rn : ℚ → ℚ)
-    (hspacing : ∀ x y : ℚ, 0 < x → 0 < y → rn x = rn y → |x - y| ≤ max x y / 2 ^ 52)
+    (hspacing : ∀ x y : ℚ, 0 < x → (1 : ℚ) / 10 ^ 8 ≤ y → y ≤ 21 * 10 ^ 6 → rn x = rn y →
+      |x - y| ≤ max x y / 2 ^ 52)
     (a : ℕ) (ha : 0 < a) (ha2 : a ≤ 21 * 10 ^ 14)
     (m : ℕ) (p : ℤ) (hm : m % 10 ≠ 0)
     (hrt : rn (decVal m p) = rn ((a : ℚ) / 10 ^ 8))
@@ -332,7 +375,7 @@ example : decVal 5 (-1) = ((50000000 : ℕ) : ℚ) / 10 ^ 8 := by
   · intro m' p' _ _
     have : ndigits 5 = 1 := by rw [ndigits]; simp
     rw [this]; exact ndigits_pos m'
-  · intro x y _ hy h
+  · intro x y _ hy _ h
     have : x = y := h
     subst this
     simp only [sub_self, abs_zero, max_self]
